@@ -173,6 +173,8 @@ static void vf_case(u64 case_no, vf_rng *r);
 
 static u64 vf_atou(char const *s) { u64 v = 0; while (*s >= '0' && *s <= '9') { v = v * 10 + (u64)(*s++ - '0'); } return v; }
 
+static void vf_on_alarm(int sig) { (void)sig; vf_flush(); vf_exit(124); }
+
 __attribute__((used)) static void vf_entry(unsigned long *sp)
 {
     int const argc = (int)sp[0];
@@ -199,6 +201,12 @@ __attribute__((used)) static void vf_entry(unsigned long *sp)
         else { vf_write(2, "vf32: unknown option\n", 21); vf_exit(2); }
     }
     if (!vf.nworkers) { vf.nworkers = 1; }
+    {
+        /* old_sigaction (syscall 67): handler, mask, flags, restorer - the handler never returns, so no restorer is needed */
+        static struct { void (*handler)(int); unsigned long mask, flags; void (*restorer)(void); } act;
+        act.handler = vf_on_alarm;
+        vf_sys(67, 14 /* SIGALRM */, (long)&act, 0);
+    }
     if (vf.journal) { vf.jfd = (int)vf_sys(5, (long)vf.journal, 0x241 /* O_WRONLY|O_CREAT|O_TRUNC */, 0644); }
     total = vf_ncases(vf.tier);
     for (u64 c = 0; c < total && ran < vf.maxcases; ++c)
@@ -210,9 +218,9 @@ __attribute__((used)) static void vf_entry(unsigned long *sp)
         vf.case_no = c;
         vf.case_viol = 0;
         vf_journal_write(c, ran);
-        /* watchdog: alarm(2) - no handler is installed, SIGALRM ends the process and the driver reads the case number from the journal (a library routine that
+        /* watchdog: alarm(2); the handler leaves with status 124, which the driver treats as a hang of the case named in the journal (a library routine that
            never returns on this data model, e.g. a binary gcd counting trailing zeros with a 32-bit builtin) */
-        vf_sys(27, (long)(case_timeout ? (case_timeout < 60 ? case_timeout : 60) : 60), 0, 0);
+        vf_sys(27, (long)(case_timeout && case_timeout < 20 ? case_timeout : 20), 0, 0); /* >= 500 x the median case time */
         vf_case(c, &r);
         vf_sys(27, 0, 0, 0);
         ++ran;
